@@ -129,9 +129,37 @@ ReNotB == ReRep(ReCls(TRUE, <<<<cb, cb>>>>), 0, -1)                             
 ReABStarC == ReCat(<<ReRep(ReCat(<<ReLit(ca), ReLit(cb)>>), 0, -1), ReRep(ReLit(cc), 0, 1)>>)   \* (ab)*c?
 ReE == ReRep(ReAlt(<<ReLit(ce), ReLit(ca)>>), 2, 2)                              \* (e-acute|a){2}
 ReDot2 == ReRep(ReDot, 2, 2)                                                     \* .{2}
-PatM1 == << << >>, <<Pat(ReABC, "", "")>>, <<Pat(ReAltABorC, "", "")>>, <<Pat(ReAStar, "", ""), Pat(ReStarB, "", "")>>, <<Pat(ReE, "", "")>> >>
+\* alternation at top level combined with bracket expressions holding ( ) | \ ^ $ and with escaped metacharacters
+Lits(s) == [i \in 1..Len(s) |-> ReLit(s[i])]
+Cls1(c) == ReCls(FALSE, <<<<c, c>>>>)
+ReM1 == ReAlt(<<ReRep(ReCls(TRUE, <<<<41, 41>>>>), 0, -1), ReCat(Lits(T("(d)")))>>)                                   \* [^)]*|\(d\)
+ReM2 == ReAlt(<<ReCat(<<ReRep(ReCls(FALSE, <<<<97, 122>>>>), 1, -1), Cls1(40)>>), ReCat(Lits(T("none")))>>)             \* [a-z]+[(]|none
+ReM3 == ReAlt(<<ReCat(<<ReCls(FALSE, <<<<40, 40>>, <<124, 124>>>>), ReLit(ca)>>), ReCat(<<ReLit(cb), ReCls(FALSE, <<<<41, 41>>, <<36, 36>>>>)>>)>>)   \* [(|]a|b[)$]
+ReM4 == ReAlt(<<ReCat(Lits(T("a|b"))), ReLit(cc)>>)                                                                   \* a\|b|c
+ReM5 == ReAlt(<<ReCat(<<ReCls(FALSE, <<<<92, 92>>, <<94, 94>>>>), ReLit(cx)>>), ReCat(Lits(T("a.c")))>>)                \* [\\\^]x|a\.c
+ReM6 == ReAlt(<<ReCat(<<ReAlt(<<ReLit(ca), ReLit(cb)>>), ReLit(cc)>>), ReCat(<<ReLit(cx), Cls1(124)>>)>>)              \* (a|b)c|x[|]
+ReM7 == ReAlt(<<ReCat(<<ReLit(cx), Cls1(41)>>), ReCat(<<Cls1(40), ReLit(ca)>>)>>)                                      \* x[)]|[(]a
+ReM8 == ReCat(<<ReRep(ReCls(TRUE, <<<<40, 41>>>>), 1, -1), ReRep(ReCat(Lits(T("(*)"))), 0, 1)>>)                       \* [^(-)]+(\(\*\))?   (no alternation)
+ReM9 == ReAlt(<<ReCat(<<Cls1(41), Cls1(40)>>), ReCat(Lits(T("ab")))>>)                                                 \* [)][(]|ab
+MetaPats == <<ReM1, ReM2, ReM3, ReM4, ReM5, ReM6, ReM7, ReM8, ReM9>>
+PatM1 == << << >>, <<Pat(ReM1, "", "")>>, <<Pat(ReM2, "", ""), Pat(ReNotB, "", "")>>, <<Pat(ReABC, "", "")>>, <<Pat(ReAltABorC, "", "")>>, <<Pat(ReAStar, "", ""), Pat(ReStarB, "", "")>>, <<Pat(ReE, "", "")>> >>
 PatM2 == << << >>, <<Pat(ReDot23, "", "")>>, <<Pat(ReNotB, "", "")>>, <<Pat(ReStarB, "", "")>> >>
 PatM3 == << << >>, <<Pat(ReABStarC, "", "")>>, <<Pat(ReDot2, "", "")>> >>
+\* a string matched by the expression (W1: the shortest choices, W2: one more repetition / the last alternative)
+RECURSIVE W1(_), W2(_), WCat(_, _, _)
+WCat(kids, k, alt) == IF k > Len(kids) THEN << >> ELSE (IF alt THEN W2(kids[k]) ELSE W1(kids[k])) \o WCat(kids, k + 1, alt)
+ClsWit(re) == IF ~re.neg THEN re.rs[1][1] ELSE CHOOSE c \in {120, 97, 48, 41} : ~InCls(c, re.rs)
+W1(re) == CASE re.op = "lit" -> <<re.c>> [] re.op = "dot" -> <<120>> [] re.op = "cls" -> <<ClsWit(re)>>
+            [] re.op = "cat" -> WCat(re.kids, 1, FALSE) [] re.op = "alt" -> W1(re.kids[1])
+            [] re.op = "rep" -> SeqCat([i \in 1..re.m |-> W1(re.kids[1])]) [] OTHER -> << >>
+W2(re) == CASE re.op = "cat" -> WCat(re.kids, 1, TRUE) [] re.op = "alt" -> W2(re.kids[Len(re.kids)])
+            [] re.op = "rep" -> SeqCat([i \in 1..(IF re.n = -1 \/ re.n > re.m THEN re.m + 1 ELSE re.m) |-> W2(re.kids[1])]) [] OTHER -> W1(re)
+TopWitnesses(re) == IF re.op = "alt" THEN UNION {{W1(re.kids[k]), W2(re.kids[k])} : k \in 1..Len(re.kids)} ELSE {W1(re), W2(re)}
+\* anchoring probes: whole matches, a match followed / preceded by one more character, a match without its
+\* last / first character, two matches in a row
+AnchorProbes(re) ==
+  LET ws == TopWitnesses(re)  junk == {120, 41, 40, 124, 97} IN
+  UNION {{w, SubSeq(w, 1, Len(w) - 1), SubSeq(w, 2, Len(w))} \cup {w \o <<j>> : j \in junk} \cup {<<j>> \o w : j \in junk} \cup {w \o v : v \in ws} \cup {<<120>> \o w \o <<120>>} : w \in ws}
 Rp(n, c) == [i \in 1..n |-> c]
 AsciiProbes == {<< >>, <<ca>>, <<ca, cb>>, <<ca, cb, cc>>, <<cc>>, <<ca, cc>>, <<cx, ca, cb>>, <<ca, cb, cx>>, <<ca, cb, ca, cb>>,
                 <<cb, cb>>, <<ca, ca, cb>>, <<cc, cx>>, <<ca, cx>>, <<cx, cc>>, <<ca, cb, cc, ca, cb>>, <<ca, ca>>}
@@ -155,7 +183,7 @@ DecLexical(fd) == {T("1"), T("+1.5"), T("-0.0"), T("1."), T(".5"), T("1e1"), T("
                    T("9223372036854775807"), T("9223372036854775808"), T("99999999999999999999")}
 StrLenProbes(t, mb) ==
   LET ns == UNION {UNION {{t.ll[i].parts[j].lo, t.ll[i].parts[j].hi} : j \in 1..Len(t.ll[i].parts)} : i \in 1..Len(t.ll)}
-      small == {n \in 0..8 : \E x \in ns : x \in {Nat2Num(n), Nat2Num(n + 1)} \/ (n > 0 /\ x = Nat2Num(n - 1))}
+      small == {n \in 0..20 : \E x \in ns : x \in {Nat2Num(n), Nat2Num(n + 1)} \/ (n > 0 /\ x = Nat2Num(n - 1))}
   IN {Rp(n, ca) : n \in small \cup {9, 17}} \cup (IF mb THEN {Rp(n, ce) : n \in small} \cup {Rp(n, 128512) : n \in small} ELSE {})
 \* the probe lexemes of a compiled type; rich adds lexical variants and multi-byte strings
 RECURSIVE ProbeSet(_, _)
@@ -163,6 +191,7 @@ ProbeSet(t, rich) ==
   CASE t.k \in IntKinds -> {ShowNum(x) : x \in NumProbeVals(t)} \cup (IF rich THEN IntLexical ELSE {})
     [] t.k = "decimal64" -> {ShowDec(x, t.fd) : x \in NumProbeVals(t)} \cup (IF rich THEN DecLexical(t.fd) ELSE {})
     [] t.k = "string" -> StrLenProbes(t, rich) \cup (IF t.pats # << >> \/ rich THEN AsciiProbes ELSE {<<ca, cb>>}) \cup (IF rich THEN MbProbes ELSE {})
+                         \cup UNION {AnchorProbes(t.pats[i].re) : i \in 1..Len(t.pats)}
     [] t.k = "enumeration" -> RangeOf(t.enums) \cup {T("three"), << >>, T("One"), T("on"), T("onee"), T("0"), T(" one")}
     [] t.k = "boolean" -> {T("true"), T("false"), T("TRUE"), T("True"), T("1"), T("0"), << >>, T("true "), T("t"), T("yes")}
     [] t.k = "empty" -> {<< >>, T("x"), T("true"), T(" ")}
@@ -296,6 +325,9 @@ DirectStrFam ==
   \cup {Chain("string", <<Pt(PatM1[i])>>) : i \in 1..Len(PatM1)}
   \cup {Chain("string", <<Pt(<<Pat(ReABStarC, "", "")>>)>>), Chain("string", <<Pt(<<Pat(ReNotB, "", "")>>)>>), Chain("string", <<Pt(<<Pat(ReDot2, "", "")>>)>>)}
   \cup {Chain("string", <<Ln(<<P2(c1, c4)>>), Ln(<<P2(c2, c3)>>), Pt(<<Pat(ReABC, "", "")>>)>>)}
+  \cup {Chain("string", <<Pt(<<Pat(MetaPats[i], "", "")>>)>>) : i \in 1..Len(MetaPats)}
+  \cup {Chain("string", <<Pt(<<Pat(MetaPats[i], "", "")>>), Pt(<<Pat(MetaPats[j], "", "")>>)>>) : i \in {1, 2, 3}, j \in {2, 7, 8}}
+  \cup {Chain("string", <<[Lv0 EXCEPT !.len = <<P2(c1, c4)>>, !.pats = <<Pat(MetaPats[i], "", ""), Pat(ReNotB, "", "")>>]>>) : i \in {1, 2, 6}}
 DirectOtherFam ==
   {Chain("enumeration", <<En(Lv0)>>), Chain("enumeration", <<En(Lv0), Lv0>>), Chain("boolean", <<Lv0>>), Chain("boolean", <<Lv0, Lv0>>), Chain("empty", <<Lv0>>), Chain("empty", <<Lv0, Lv0>>),
    Chain("union", <<Un(U1)>>), Chain("union", <<Un(U2)>>), Chain("union", <<Un(U3)>>), Chain("union", <<Un(U2), Lv0>>),
@@ -364,8 +396,25 @@ DiffBaseFam(r) ==
                  <<Chain("string", StrBases[1] \o <<SameStr[2]>>), InB(Chain("string", StrBases[3] \o <<SameStr[2]>>)), Chain("string", StrBases[2] \o <<SameStr[2]>>)>>,
                  <<OnBase(IntBaseChains[3], SameInt[2]), OnBase(IntBaseChains[1], SameInt[2]), InB(OnBase(IntBaseChains[4], SameInt[2]))>>}
     [] OTHER -> {}
+\* ------------------------------------------------------------------ histories of one typedef inside one compilation (fam 102xx)
+\* several uses of the same typedef (and of a typedef of it) as sibling leaves, an applicable use before / after / between
+\* uses with a restriction kind that does not apply: the verdict on a statement does not depend on the others
+KHKinds == <<"uint8", "boolean", "string", "enumeration", "decimal64", "int64", "union">>
+KHValid(k) == CASE k \in {"uint8", "decimal64", "int64"} -> {<<Lv0>>, <<Rg(<<P2(c1, c5)>>)>>, <<Rg(<<P2(c1, c5)>>), Lv0>>}
+                [] k = "string" -> {<<Lv0>>, <<Ln(<<P2(c1, c5)>>)>>, <<Pt(<<P0(ReABC)>>)>>, <<Ln(<<P2(c1, c5)>>), Lv0>>}
+                [] OTHER -> {<<Lv0>>, <<Lv0, Lv0>>}
+KHInvalid(k) == CASE k \in {"uint8", "decimal64", "int64"} -> {<<Ln(<<P2(c1, c5)>>)>>, <<Pt(<<P0(ReABC)>>)>>, <<Ln(<<P2(c1, c5)>>), Lv0>>, <<Pt(<<P0(ReABC)>>), Lv0>>}
+                  [] k = "string" -> {<<Rg(<<P2(c1, c5)>>)>>, <<Rg(<<P2(c1, c5)>>), Lv0>>}
+                  [] OTHER -> {<<Rg(<<P2(c1, c5)>>)>>, <<Ln(<<P2(c1, c5)>>)>>, <<Pt(<<P0(ReABC)>>)>>, <<Ln(<<P2(c1, c5)>>), Lv0>>}
+KindHistFam(r) ==
+  LET k == KHKinds[r]
+      mk(sh, tail) == Chain(k, sh \o tail)
+  IN UNION {UNION {UNION {
+       {<<mk(sh, v), mk(sh, i)>>, <<mk(sh, i), mk(sh, v)>>, <<mk(sh, v), mk(sh, i), mk(sh, v)>>, <<mk(sh, i)>>, <<mk(sh, i), mk(sh, i)>>}
+       \cup {<<mk(sh, v), mk(sh, v2), mk(sh, i)>> : v2 \in KHValid(k)} \cup {<<mk(sh, v), mk(sh, v2)>> : v2 \in KHValid(k)}
+       : i \in KHInvalid(k)} : v \in KHValid(k)} : sh \in {<<FirstOf(k)>>, <<FirstOf(k), Lv0>>}}
 \* fam 10000 + r: r < 100 shared chains, r >= 100 different bases
-GroupsOf(fam) == LET r == fam % 1000 IN IF r < 100 THEN SharedFam(r) ELSE DiffBaseFam(r - 100)
+GroupsOf(fam) == LET r == fam % 1000 IN IF r < 100 THEN SharedFam(r) ELSE IF r < 200 THEN DiffBaseFam(r - 100) ELSE KindHistFam(r - 200)
 
 \* ------------------------------------------------------------------ seeded random chains (TLC RandomElement, -seed)
 RandOf(s) == s[RandomElement(1..Len(s))]
@@ -398,7 +447,7 @@ RandLenParts(u_) ==
                      ELSE P2(IF i = 1 /\ Coin(5) THEN MinT ELSE txt(picks[2 * i - 1]), IF i = m /\ Coin(5) THEN MaxT ELSE txt(picks[2 * i]))]
 \* rich: any Unicode; otherwise ASCII only (multi-byte strings and lexical variants belong to the value-space families)
 RandStr(rich) == LET n == RandomElement(0..7) IN [i \in 1..n |-> RandomElement(IF rich THEN {ca, cb, cc, cx, ce, 8364, 128512, 48, 32} ELSE {ca, cb, cc, cx, 48, 32})]
-AllPats == <<ReABC, ReAltABorC, ReAStar, ReStarB, ReDot23, ReNotB, ReABStarC, ReE, ReDot2>>
+AllPats == <<ReABC, ReAltABorC, ReAStar, ReStarB, ReDot23, ReNotB, ReABStarC, ReE, ReDot2>> \o MetaPats
 RECURSIVE RandGrow(_, _)
 \* add levels while the chain still compiles
 RandGrow(ch, more) ==
@@ -505,6 +554,38 @@ DefNarrowFam(r) ==
                                {c3, c6, c0, T("100"), ShowNum(WidthOf(k).hi)})
     [] r = 5 -> DefNarrow("decimal64", 2, {Lv0, Rg(<<P2(c1, c9)>>)}, <<Rg(<<P2(T("1.5"), T("2.5"))>>), Rg(<<P2(c2, MaxT)>>), Rg(<<P2(MinT, T("1.99"))>>)>>, {c2, T("2.55"), T("1.5"), T("1.99"), T("2.00")})
     [] OTHER -> {}
+\* ------------------------------------------------------------------ representation limits as bounds (fam 1202b, 12030, 1204f)
+\* the extremes of every integer type and their outer neighbours, as single bound, as first / last bound and as the
+\* last part of a multi-part restriction, directly on the built-in type and derived over (derived) narrower types
+LimitVals == UNION {{Dec(Width[t].lo), Width[t].lo, Width[t].hi, Inc(Width[t].hi)} : t \in DOMAIN Width}
+LimitForms(x) == {<<P1(x)>>, <<P2(MinT, x)>>, <<P2(x, MaxT)>>, <<P2(c1, c5), P1(x)>>, <<P2(c1, c5), P2(c7, x)>>}
+LimitIntFam(b) ==
+  LET k == IntBases[b]
+      bases == {<< >>, <<Rg(<<P2(c0, T("100"))>>)>>, <<Lv0, Rg(<<P2(c0, T("100"))>>)>>, <<Rg(<<P2(MinT, MaxT)>>)>>}
+  IN {Chain(k, base \o <<Rg(f)>>) : base \in bases, f \in UNION {LimitForms(ShowNum(x)) : x \in LimitVals}}
+LimitLenFam ==
+  LET vals == {T("10"), T("11"), T("4294967294"), T("4294967295"), T("4294967296"), T("5000000000"), T("9223372036854775807"), T("9223372036854775808"),
+               T("18446744073709551615"), T("18446744073709551616")}
+      forms(x) == {<<P1(x)>>, <<P2(c1, x)>>, <<P2(MinT, x)>>, <<P2(c1, c2), P2(c4, x)>>, <<P2(x, MaxT)>>}
+      bases == {<< >>, <<Lv0>>, <<Ln(<<P2(c1, T("10"))>>)>>, <<Ln(<<P2(c1, T("10"))>>), Lv0>>, <<Ln(<<P2(c0, c2), P2(c4, c6)>>)>>, <<Ln(<<P2(c1, T("4294967295"))>>)>>, <<Ln(<<P2(c2, MaxT)>>)>>}
+  IN {Chain("string", base \o <<Ln(f)>>) : base \in bases, f \in UNION {forms(x) : x \in vals}}
+LimitDecFam(f) ==
+  LET fd == DecFds[f]  lo == WidthOf("decimal64").lo  hi == WidthOf("decimal64").hi  t(n) == ShowDec(Tn(n, fd), fd)
+      vals == {ShowDec(x, fd) : x \in {Dec(lo), lo, Inc(lo), Dec(hi), hi, Inc(hi)}}
+      forms(x) == {<<P1(x)>>, <<P2(MinT, x)>>, <<P2(x, MaxT)>>, <<P2(t(15), t(25)), P1(x)>>}
+      bases == {<< >>, <<Rg(<<P2(c0, c9)>>)>>, <<Rg(<<P2(MinT, MaxT)>>), Lv0>>}
+  IN {[Chain("decimal64", base \o <<Rg(g)>>) EXCEPT !.levels[1].fd = fd] : base \in bases, g \in UNION {forms(x) : x \in vals}}
+\* ------------------------------------------------------------------ types with a large value set (group 13, also validated concurrently)
+NumT(pfx, i) == T(pfx) \o ShowNum(Nat2Num(i))
+BigEnum(n) == [Lv0 EXCEPT !.enums = [i \in 1..n |-> NumT("e", i)]]
+BigIdents(n) == <<Idn("a", "big0", "", "")>> \o [i \in 1..n |-> [m |-> IF i % 3 = 0 THEN "b" ELSE "a", n |-> "i" \o ToString(i), bm |-> "a",
+                                                               bn |-> IF i <= 3 THEN "big0" ELSE IF i % 3 = 0 THEN "i" \o ToString(i - 2) ELSE "i" \o ToString(i - 3)]]
+BigFam(r) ==
+  CASE r = 1 -> {Chain("enumeration", <<BigEnum(300)>>), Chain("enumeration", <<BigEnum(150), Lv0>>)}
+    [] r = 2 -> {Chain("union", <<Un([i \in 1..16 |-> Mem("int8", Rg(<<P1(ShowNum(Nat2Num(3 * i)))>>))] \o <<Mem("enumeration", BigEnum(60)), Mem("string", Pt(<<P0(ReM2)>>))>>)>>)}
+    [] r = 3 -> {Chain("string", <<Pt([i \in 1..20 |-> P0(ReRep(ReCls(TRUE, <<<<100 + i, 100 + i>>>>), 0, -1))]), Pt(<<P0(ReM1), P0(ReDot23)>>)>>)}
+    [] r = 4 -> {[k |-> "identityref", mod |-> m, lay |-> "top", idents |-> BigIdents(90), levels |-> <<[Lv0 EXCEPT !.idbase = [m |-> "a", n |-> "big0"]]>>] : m \in {"a", "b"}}
+    [] OTHER -> {}
 \* ------------------------------------------------------------------ family table
 \* the chains of an exhaustive family (group = fam \div 1000)
 ChainsOf(fam, maxd) ==
@@ -517,7 +598,9 @@ ChainsOf(fam, maxd) ==
     [] g = 6 -> (CASE r = 1 -> PatFam(maxd) [] r = 2 -> MixFam [] OTHER -> StrDefFam)
     [] g = 7 -> (CASE r = 1 -> KindFam [] r = 2 -> OtherDefFam [] OTHER -> LayoutFam)
     [] g = 8 -> (CASE r \in 1..8 -> DirectIntFam(r) [] r \in 11..16 -> DirectDecFam(r - 10) [] r = 20 -> DirectStrFam [] r = 21 -> DirectOtherFam [] OTHER -> MsgFam)
-    [] g = 12 -> (IF r < 10 THEN HugeGapFam(r) ELSE IF r = 10 THEN HugeLenFam ELSE DefNarrowFam(r - 100))
+    [] g = 12 -> (CASE r < 10 -> HugeGapFam(r) [] r = 10 -> HugeLenFam [] r \in 21..28 -> LimitIntFam(r - 20) [] r = 30 -> LimitLenFam
+                    [] r \in 41..46 -> LimitDecFam(r - 40) [] OTHER -> DefNarrowFam(r - 100))
+    [] g = 13 -> BigFam(r)
     [] OTHER -> {}
 \* group 8 (directly constructed types) is probed with lexical variants and multi-byte strings
 Rich(fam) == fam \div 1000 = 8
